@@ -115,6 +115,16 @@ def ocean_floor(
     if non_spatial_variables is None:
         non_spatial_variables = []
 
+    # The bounds of the depth coordinates describe the layers being removed.
+    # They are not data on the layers: they have no ocean floor to find,
+    # and would otherwise be dragged along with every variable that uses the coordinate.
+    depth_bounds = [
+        utils.name_to_data_array(dataset, coordinate).attrs.get('bounds')
+        for coordinate in depth_coordinates]
+    dataset = dataset.drop_vars([
+        name for name in depth_bounds
+        if name is not None and name in dataset.variables])
+
     # The name of all the relevant _dimensions_, not _coordinates_
     depth_dimensions = utils.dimensions_from_coords(dataset, depth_coordinates)
     non_spatial_dimensions = utils.dimensions_from_coords(dataset, non_spatial_variables)
